@@ -676,9 +676,24 @@ def buildFiles (lf : Bool) (dir : Directory) : R (List (Bytes × FInfo)) := buil
 /-- `dir.build_files(self.typ)` in the state monad -/
 def buildFilesM (dir : Directory) : M (List (Bytes × FInfo)) := fun d => (buildFiles d.labelFiles dir, d)
 
+/-- `str::split_once(sep)` on bytes: the parts before and after the first `sep` -/
+def splitOnce (sep : Nat) : Bytes → Option (Bytes × Bytes)
+  | [] => none
+  | c :: cs =>
+    if c = sep then some ([], cs)
+    else match splitOnce sep cs with
+      | none => none
+      | some (a, b) => some (c :: a, b)
+
+/-- the key `get_file` looks up: base and extension trimmed separately (as the stored, blank padded fields are) -/
+def lookupKey (name : Bytes) : Bytes :=
+  match splitOnce 46 name with
+  | some (base, ext) => trimEnd base ++ [46] ++ trimEnd ext
+  | none => trimEnd name ++ [46]
+
 /-- `directory::get_file` -/
 def getFile (name : Bytes) (files : List (Bytes × FInfo)) : Option FInfo :=
-  let trimmed := if name.contains 46 then trimEnd name else trimEnd name ++ [46]
+  let trimmed := lookupKey name
   match files.lookup trimmed with
   | some f => some f
   | none => files.lookup (upper trimmed)
@@ -851,6 +866,13 @@ structure FImg where
 /-- `fimg.end()` -/
 def FImg.end (f : FImg) : Nat := f.chunks.foldl (fun m c => max m (c.1 + 1)) 0
 
+/-- `fimg.access.len()>0 && fimg.access[0] & (VOLUME_ID | DIRECTORY) != 0`: the file image carries the volume label or
+directory attribute (`put` refuses it) -/
+def FImg.dirOrLabel (f : FImg) : Bool :=
+  match f.access.head? with
+  | some a => decide (a &&& (VOLUME_ID ||| DIRECTORY) ≠ 0)
+  | none => false
+
 /-- `fimg_to_metadata(fimg, true)`: the slices panic when the vectors are too short -/
 def fimgToMetadata (e : Bytes) (f : FImg) : R Bytes :=
   if f.eof.length < 4 ∨ f.access.length < 1 ∨ f.created.length < 5 ∨ f.modified.length < 4 then .error .panic else
@@ -886,6 +908,8 @@ def put (f : FImg) (now : Stamp) : M Nat := do
   if !f.fsOk then M.fail .writeFault else
   let d ← M.get
   if f.chunkLen ≠ d.bpb.blockSize then M.fail .incorrectDOS else
+  -- `fimg.access.len()>0 && fimg.access[0] & (VOLUME_ID | DIRECTORY) != 0`
+  if f.dirOrLabel then M.fail .writeFault else
   let (name, cluster1, idx, dir) ← prepareToWrite f.fullPath
   let entry ← M.lift (fimgToMetadata (entryCreate (stringToFileName name) 0 now) f)
   let dir' ← M.lift (dirSet dir idx entry)
